@@ -308,7 +308,16 @@ def pmap(fn, items, nproc=None, chunksize=1, pin=False, maxtasks=None):
     counter = ctx.Value("i", 0)
     pool = ctx.Pool(min(nproc, len(items)), initializer=_init_worker, initargs=(counter, pin), maxtasksperchild=maxtasks)
     try:
-        for status, val in pool.imap_unordered(_call, [(fn, it) for it in items], chunksize):
+        it = pool.imap_unordered(_call, [(fn, it) for it in items], chunksize)
+        stall = float(os.environ.get("VERIF_STALL_LIMIT", "2700"))
+        while True:
+            try:
+                status, val = it.next(timeout=stall)
+            except StopIteration:
+                break
+            except multiprocessing.TimeoutError:
+                # a worker that was killed (OOM, segfault) loses its task and the pool would wait for ever
+                raise HarnessError("no work item finished for %.0f s: a worker process probably died or hangs" % stall)
             if status == "err":
                 raise HarnessError("worker failed:\n" + val)
             yield val
